@@ -194,12 +194,15 @@ PROPERTIES = {
                 bounds_text={"quick": "one file, with or without a service, holding one message per codec feature (int64 NUMBER singular+repeated, partially annotated enum, nullable, empty_behavior x3, timestamp_format x3, bytes_encoding x4, flatten+prefix, discriminated oneof flattened or not with custom oneof_value, root unwrap); field names, JSON names (independent of the names), prefixes, discriminators and custom values symbolic strings <= 3; both generators run in full and their emission traces are compared line by line"},
                 assumptions=["GoIdent operands are rendered by the recording stub as <import path>.<name> for both generators alike",
                              "annotated types defined in other files of the run and plugin-order effects on the file system are not part of this check"]),
-    "C15": dict(G_HTTPGEN, replay_repeat=12,
+    "C15": dict(G_HTTPGEN, replay_repeat=12, load_pkgs=["./internal/httpgen", "./cmd/protoc-gen-openapiv3"],
                 overlay={"internal/httpgen/zz_verif_c15.go": "harness/c15/c15_headers.go", "internal/httpgen/zz_verif_c15m.go": "harness/c15/c15_mock.go",
-                         "internal/httpgen/zz_verif_c20w.go": "harness/c20/c20_world.go"},
+                         "internal/httpgen/zz_verif_c20w.go": "harness/c20/c20_world.go",
+                         "cmd/protoc-gen-openapiv3/zz_verif_c15.go": "harness/c15/c15_params_main.go"},
                 harnesses=[dict(func="VerifC15CombineHeaders", reach=["C15/headers/decided"], quick=dict(budget=300, parts=4, flags=["-mapperm"]), thorough=dict(budget=900, parts=8, flags=["-mapperm"])),
                            dict(func="VerifC15RequestVariations", reach=["C15/request/decided"], quick=dict(budget=200, flags=["-mapperm"]), thorough=dict(budget=600, flags=["-mapperm"])),
-                           dict(func="VerifC15MockAcrossFiles", reach=["C15/mock/decided"], quick=dict(budget=100), thorough=dict(budget=300))],
+                           dict(func="VerifC15MockAcrossFiles", reach=["C15/mock/decided"], quick=dict(budget=100), thorough=dict(budget=300)),
+                           dict(func="VerifC15ParameterSpelling", pkgpath=MOD + "/cmd/protoc-gen-openapiv3", test_pkg="./cmd/protoc-gen-openapiv3", test_pkgname="main",
+                                reach=["C15/parameters/decided"], quick=dict(budget=100), thorough=dict(budget=300))],
                 bounds_text={"quick": "CombineHeaders: 1 service + 2 method declarations with symbolic one-letter names over [abAB] (case variants included), every iteration order of every Go map ranged over (symbolic permutation, maps of 2..4 entries), two evaluations compared. "
                                       "Request variations: go-http and go-client on a service file + same-package wrapper file (unwrap map value) + unrelated file: permuted file order, extra file first/last, single-file invocation; emission traces of the service file compared"},
                 assumptions=["Go map iteration order is modelled as an arbitrary permutation chosen per range statement (maps with more than 4 entries iterate in insertion order)",
